@@ -76,7 +76,7 @@ func H_C06_distinct_str() {
 
 // H_C06_union: A UNION [ALL] B [UNION [ALL] C] [LIMIT n].
 func H_C06_union() {
-	form := verif.Choose("form", 13)
+	form := verif.Choose("form", 17)
 	na := verif.Choose("a", 3)
 	nb := verif.Choose("b", 3)
 	mk := func(n int, col string) ([]Map, []any) {
@@ -105,6 +105,15 @@ func H_C06_union() {
 	}
 	var sql string
 	switch form {
+	case 13:
+		// a branch without FROM (one constant row)
+		sql = "SELECT v FROM a UNION ALL SELECT 9 AS v"
+	case 14:
+		sql = "SELECT 9 AS v UNION ALL SELECT v FROM a"
+	case 15:
+		sql = "SELECT v FROM a UNION SELECT 9 AS v UNION SELECT 9 AS v"
+	case 16:
+		sql = verif.SQL("SELECT 9 AS v UNION ALL SELECT v FROM a UNION ALL SELECT v FROM b LIMIT ?", lim)
 	case 10:
 		// a plain SELECT branch with its own window inside a union with a LIMIT
 		sql = verif.SQL("(SELECT v FROM a LIMIT ?) UNION ALL SELECT v FROM b LIMIT ?", blim, lim)
@@ -154,6 +163,19 @@ func H_C06_union() {
 		}
 	case 4:
 		want = append(refDistinct(cat), c...)
+	case 13:
+		want = append(append([]any(nil), a...), Map{"v": float64(9)})
+	case 14:
+		want = append([]any{Map{"v": float64(9)}}, a...)
+	case 15:
+		want = refDistinct(append(append([]any(nil), a...), Map{"v": float64(9)}))
+	case 16:
+		all := append(append([]any{Map{"v": float64(9)}}, a...), b...)
+		for i, r := range all {
+			if i < lim {
+				want = append(want, r)
+			}
+		}
 	case 10, 11, 12:
 		var acut []any
 		o := off
